@@ -127,6 +127,17 @@ _WHERE = {
             "renderings, CPython.",
             "TLA+ system spec (HtmlTools/HeapOps) model-checked with TLC; TLC-generated histories replayed into the "
             "code; recorded heaps validated by TLC trace spec (HeapTrace)"),
+    "C17": ("displayhook", "C17",
+            "TLC explores every program of with-blocks up to the bound (3 tags, nesting 3, exceptions at every point, "
+            "guarded and unguarded blocks) on the DisplayHook machine and checks hook restoration on every exit path, "
+            "exactly-once delivery and intact chain on re-entry; every complete program of the generation bound and "
+            "seeded random programs (to depth 8, 60 events) are executed with genuine `with tag:` statements and TLC "
+            "replays each recorded run through the same step function, comparing hook identity, children, deliveries "
+            "and exceptions after every event.",
+            "Trusted: TLC/SANY, DisplayHookOps.StepF as the reading of the statement, the harness's recursive interpreter "
+            "that aligns Python's unwinding with the program's Exit events, identity-based observation of sys.displayhook, CPython.",
+            "TLA+ spec (DisplayHook) model-checked with TLC; TLC-generated programs replayed into the code; recorded runs "
+            "validated by TLC trace spec (DHTrace)"),
 }
 
 NOT_YET = {}
